@@ -85,6 +85,10 @@ def check_case(case, ctx=None):
         op = "update"
     if op == "project" and "mask" in kinds:
         op = "simulate"
+    if op == "assess" and (kinds & {"switch", "or_else", "mix", "mask"}):
+        # assess only accepts samples that carry a value for non-executed code (finding assess_empty_sample);
+        # with Python-valued indices / flags the trace's own choices do not
+        op = "importance"
     # the same arguments, arrays traced through jit; Python-valued flags / indices stay static (closed over)
     flat, tdef = jax.tree_util.tree_flatten(jargs)
     dyn_ix = [i for i, x in enumerate(flat) if isinstance(x, jax.Array)]
